@@ -47,7 +47,10 @@ def observe_oks(c):
     gts, prs, opt = c["gts"], c["prs"], c["opt"]
     G, P, N = len(gts), len(prs), len(gts[0])
     c.update(raised="", area=[-1] * G, M=[], ks=[], argmut=False)
-    sarr = np.full(N, opt["s"] / 40.0) if opt.get("sarr") else None
+    # a per-keypoint stddev ARRAY (documented option): uniform, or - every other array case - a different value per node
+    sn = [S_VALUES[(n + G + P) % 3] if (opt.get("sarr") and (G + P + N) % 2) else opt["s"] for n in range(N)]
+    opt["sn"] = sn
+    sarr = np.array([v / 40.0 for v in sn]) if opt.get("sarr") else None
     sarr0 = None if sarr is None else sarr.copy()
     skip = dict(cls="skip", kq=0, q=0)
     with warnings.catch_warnings():
@@ -70,7 +73,7 @@ def observe_oks(c):
                             per.append(skip)
                             continue
                         v = E.compute_oks(U.pose_np([gts[g][n]])[None], U.pose_np([prs[p][n]])[None], scale=scale,
-                                          stddev=opt["s"] / 40.0, use_cocoeval=opt["coco"])
+                                          stddev=sn[n] / 40.0, use_cocoeval=opt["coco"])
                         per.append(U.obs_ks(np.asarray(v).ravel()[0]))
                     row.append(per)
                 ks.append(row)
